@@ -19,6 +19,7 @@
 // exist on this tree), hash.
 #include <etl/string_view.hpp>
 
+#include <cwchar>
 #include <string>
 #include <string_view>
 
@@ -643,6 +644,9 @@ struct Scope {
     std::size_t hmax, nmax;        // enumeration
     std::size_t rand_pairs;        // random (haystack, needle) pairs per shard
     std::size_t rand_maxlen;
+    std::vector<std::uint32_t> extreme; // extreme code units of the type (sign bit set, min, max, surrogates, 0xFF/0x100 boundary)
+    std::vector<std::uint32_t> sym;     // 5 distinct non-NUL units A X Y Z B for the structured long inputs
+    std::size_t long_max;               // largest needle length of the structured long inputs
 };
 
 // ---------------------------------------------------------------- enumeration of one character type
@@ -693,7 +697,10 @@ void random_pairs(vf::Ctx& c, Scope<Char> const& sc)
         // alphabet of 1..4 units drawn from the scope's alphabet (small, so that needles do occur in haystacks)
         std::vector<std::uint32_t> al;
         auto const an = 1 + r.below(sc.alpha.size());
-        for (std::size_t i = 0; i < an; ++i) { al.push_back(sc.alpha[r.below(sc.alpha.size())]); }
+        for (std::size_t i = 0; i < an; ++i) {
+            // one draw in three comes from the extreme code units of the type
+            al.push_back(!sc.extreme.empty() && r.below(3) == 0 ? sc.extreme[r.below(sc.extreme.size())] : sc.alpha[r.below(sc.alpha.size())]);
+        }
         auto const hl = r.below(5) == 0 ? r.below(6) : r.below(sc.rand_maxlen + 1);
         k.hnull       = false;
         k.nnull       = false;
@@ -737,6 +744,180 @@ void random_pairs(vf::Ctx& c, Scope<Char> const& sc)
     }
 }
 
+// ---------------------------------------------------------------- structured long inputs
+// Needles of length L around the thresholds of skip-ahead / Horspool / two-way / SIMD-prefilter searches, built from
+// periodic and almost-periodic patterns, and haystacks built from those needles (prefix of the needle + needle, near miss +
+// needle, overlapping repetitions, needle at the very start / very end / cut off by the end).  Every search function and
+// compare / starts_with / ends_with / contains run at the positions around the real matches and around size()-L.
+using Units = std::vector<std::uint32_t>;
+auto cat(Units a, Units const& b) -> Units
+{
+    a.insert(a.end(), b.begin(), b.end());
+    return a;
+}
+auto head(Units const& a, std::size_t n) -> Units { return Units(a.begin(), a.begin() + static_cast<long>(std::min(n, a.size()))); }
+auto tail_from(Units const& a, std::size_t n) -> Units { return Units(a.begin() + static_cast<long>(std::min(n, a.size())), a.end()); }
+
+struct LongNeedle {
+    Units n;
+    std::size_t hint; // period / recurrence distance of the pattern (0 = none)
+};
+auto long_needles(std::vector<std::uint32_t> const& sym, std::size_t L) -> std::vector<LongNeedle>
+{
+    auto const A = sym[0], X = sym[1], Y = sym[2], B = sym[4];
+    std::set<Units> seen;
+    std::vector<LongNeedle> out;
+    auto add = [&](Units u, std::size_t hint) {
+        if (u.size() == L && seen.insert(u).second) { out.push_back({std::move(u), hint}); }
+    };
+    for (std::size_t p : {1U, 2U, 3U, 7U, 8U, 15U, 16U, 17U, 31U, 32U}) {
+        if (p >= L) { continue; }
+        Units base(L);
+        for (std::size_t i = 0; i < L; ++i) { base[i] = i % p == 0 ? A : (i % p == 1 ? B : X); }
+        add(base, p);
+        for (std::size_t at : {L - 1, std::size_t{0}, L / 2}) {
+            auto v = base;
+            v[at]  = Y;
+            add(v, p);
+        }
+    }
+    // the first unit recurs exactly at distance d, nowhere else
+    for (std::size_t d : {1U, 2U, 3U, 7U, 8U, 9U, 15U, 16U, 17U, 18U, 31U, 32U, 33U, 63U, 64U, 65U, 127U, 128U, 129U}) {
+        if (d + 2 > L) { continue; }
+        Units v(L, X);
+        v[0] = A;
+        v[d] = A;
+        add(v, d);
+        v[L - 1] = Y;
+        add(v, d);
+    }
+    // runs
+    {
+        Units v(L, A);
+        v[L - 1] = X;
+        add(v, 1);
+        Units w(L, X);
+        w[0] = A;
+        add(w, 0);
+        Units u(L, A);
+        for (std::size_t i = L / 2; i < L; ++i) { u[i] = X; }
+        add(u, 1);
+    }
+    return out;
+}
+auto long_haystacks(std::vector<std::uint32_t> const& sym, LongNeedle const& ln) -> std::vector<Units>
+{
+    auto const Z  = sym[3];
+    auto const& n = ln.n;
+    auto const L  = n.size();
+    std::set<Units> seen;
+    std::vector<Units> out;
+    auto add = [&](Units u) {
+        if (seen.insert(u).second) { out.push_back(std::move(u)); }
+    };
+    std::set<std::size_t> ks{1, 2, L / 2, L - 1};
+    if (ln.hint > 0 && ln.hint < L) {
+        ks.insert(ln.hint);
+        ks.insert(ln.hint + 1);
+    }
+    for (auto k : ks) {
+        add(cat(head(n, k), n));                    // prefix of the needle + needle
+        add(cat(n, tail_from(n, k)));               // needle + needle shifted by k (overlapping repetition or near miss)
+        add(cat(cat(head(n, k), head(n, L - 1)), cat(Units{Z}, n))); // prefix + needle cut short + junk + needle
+    }
+    auto miss_last = n;
+    miss_last[L - 1] = Z;
+    auto miss_mid    = n;
+    miss_mid[L / 2]  = Z;
+    add(cat(miss_last, n));                         // near miss (last unit) + needle
+    add(cat(miss_mid, n));                          // near miss (middle unit) + needle
+    add(cat(cat(n, n), n));                         // repetitions
+    add(cat(Units{Z, Z, Z}, n));                    // needle at the very end
+    add(cat(n, Units{Z, Z, Z}));                    // needle at the very start
+    add(cat(Units{Z}, head(n, L - 1)));             // needle cut off by the end of the haystack: no match, over-read bait
+    add(cat(cat(n, Units{Z}), head(n, L - 1)));     // one match, then the needle cut off by the end
+    add(head(n, L - 1));                            // haystack one unit shorter than the needle
+    add(n);                                         // haystack == needle
+    return out;
+}
+
+template <typename Char>
+void structured(vf::Ctx& c, Scope<Char> const& sc, std::uint64_t& work)
+{
+    using SV = std::basic_string_view<Char>;
+    Case k;
+    k.ck = sc.ck;
+    for (std::size_t L : {7U, 8U, 9U, 15U, 16U, 17U, 31U, 32U, 33U, 63U, 64U, 65U, 127U, 128U, 129U, 255U, 256U, 257U}) {
+        if (L > sc.long_max) { continue; }
+        bool const big = L > 65; // the character-class searches are O(size * L): only a few of them on the big inputs
+        for (auto const& ln : long_needles(sc.sym, L)) {
+            if (!c.mine(work++)) { continue; }
+            for (auto const& hay : long_haystacks(sc.sym, ln)) {
+                k.hnull = k.nnull = false;
+                k.hay             = hay;
+                k.nee             = ln.n;
+                Bufs<Char> b{k};
+                auto const pf = pair_flags(k);
+                vf::Flight<Case> fl("structured", k);
+                auto const hn = hay.size();
+                // positions: around the first and the last real match (the oracle tells where they are), around size()-L, the ends
+                SV const sh{b.hay.p, hn};
+                SV const sn{b.nee.p, L};
+                auto const m  = sh.find(sn);
+                auto const rm = sh.rfind(sn);
+                std::set<std::size_t> ps{0, 1, hn, NPOS};
+                for (auto x : {m, rm}) {
+                    if (x != NPOS) {
+                        ps.insert(x);
+                        ps.insert(x + 1);
+                        if (x > 0) { ps.insert(x - 1); }
+                    }
+                }
+                if (hn >= L) {
+                    ps.insert(hn - L);
+                    ps.insert(hn - L + 1);
+                }
+                bool ok   = true;
+                auto call = [&](int fn, std::size_t pos, std::size_t cnt, std::size_t pos2, std::size_t cnt2) {
+                    if (!ok) { return; }
+                    k.fn   = fn;
+                    k.pos  = pos;
+                    k.cnt  = cnt;
+                    k.pos2 = pos2;
+                    k.cnt2 = cnt2;
+                    ok     = one<Char>(b, k, pf, false);
+                };
+                for (int fam = 0; fam < 6; ++fam) {
+                    bool const substring_search = fam <= 1; // find, rfind
+                    for (int form : {0, 4, 5}) {            // (view,pos) (ptr,pos,count) (cstr,pos)
+                        if (big && !substring_search && form != 0) { continue; }
+                        for (auto pos : ps) {
+                            if (big && !substring_search && pos != 0 && pos != NPOS && pos != m) { continue; }
+                            call(fam * 7 + form, pos, 0, 0, 0);
+                        }
+                    }
+                    call(fam * 7 + 1, 0, 0, 0, 0); // (view), default pos
+                    if (!big || substring_search) { call(fam * 7 + 6, 0, 0, 0, 0); } // (cstr), default pos
+                }
+                for (int fn : {cmp_v, cmp_z, sw_v, sw_z, ew_v, ew_z, ct_v, ct_z, rel_vv, rel_vz, rel_zv}) { call(fn, 0, 0, 0, 0); }
+                std::set<std::size_t> cps{0};
+                if (m != NPOS) { cps.insert(m); }
+                if (rm != NPOS) { cps.insert(rm); }
+                if (hn >= L) { cps.insert(hn - L); }
+                for (auto pos : cps) {
+                    for (auto cnt : {L, L - 1, L + 1, NPOS}) {
+                        for (int fn : {cmp_ppv, cmp_ppz, cmp_ppzn}) { call(fn, pos, cnt, 0, 0); }
+                        call(cmp_ppvpp, pos, cnt, 0, NPOS);
+                        call(cmp_ppvpp, pos, cnt, 1, L - 1);
+                    }
+                }
+                if (!ok && !c.memory_only) { return; }
+                flush_tally();
+            }
+        }
+    }
+}
+
 template <typename Char>
 auto replay_one(Case const& k) -> std::string
 {
@@ -747,29 +928,41 @@ auto replay_one(Case const& k) -> std::string
 
 } // namespace
 
+// the second, smaller enumeration puts the extreme code units of the type next to 'a' and NUL
+template <typename Char>
+void run_type(vf::Ctx& c, Scope<Char> const& sc, std::uint64_t& work)
+{
+    enumerate<Char>(c, sc, work);
+    auto ex     = sc;
+    ex.alpha    = {sc.alpha[0], 0};
+    ex.alpha.insert(ex.alpha.end(), sc.extreme.begin(), sc.extreme.end());
+    ex.hmax     = c.thorough() ? 3U : 2U;
+    ex.nmax     = 2U;
+    enumerate<Char>(c, ex, work);
+    structured<Char>(c, sc, work);
+    random_pairs<Char>(c, sc);
+}
+
 void vf_run(vf::Ctx& c)
 {
     std::uint64_t work = 0;
     bool const t       = c.thorough();
+    [[maybe_unused]] auto const u = [](auto v) { return static_cast<std::uint32_t>(v); };
 #if !defined(C08_WIDE)
     // the property's scope: all haystacks of length <= 4 (thorough 5), needles <= 3 (4) over {a, b, NUL, 0xE9}
-    Scope<char> sc{CK_CHAR, {'a', 'b', 0, 0xE9}, t ? 5U : 4U, t ? 4U : 3U, t ? 5000U : 2500U, 64};
-    enumerate<char>(c, sc, work);
-    random_pairs<char>(c, sc);
+    Scope<char> sc{CK_CHAR, {'a', 'b', 0, 0xE9}, t ? 5U : 4U, t ? 4U : 3U, t ? 5000U : 2500U, 64, {0x7F, 0x80, 0xFF}, {'a', 'x', 'y', 'z', 0xE9}, 257};
+    run_type<char>(c, sc, work);
 #elif C08_WIDE == 1
-    Scope<wchar_t> sw{CK_WCHAR, {L'a', L'b', 0, 0x20AC}, t ? 4U : 3U, t ? 3U : 2U, t ? 4000U : 1200U, 64};
-    enumerate<wchar_t>(c, sw, work);
-    random_pairs<wchar_t>(c, sw);
-    Scope<char16_t> s16{CK_CHAR16, {u'a', u'b', 0, 0xD83D}, t ? 4U : 3U, t ? 3U : 2U, t ? 4000U : 1200U, 64};
-    enumerate<char16_t>(c, s16, work);
-    random_pairs<char16_t>(c, s16);
+    // wchar_t is a signed 32-bit type here and std::char_traits<wchar_t> orders it with the built-in <: negative units sort first
+    Scope<wchar_t> sw{CK_WCHAR, {L'a', L'b', 0, 0x20AC}, t ? 4U : 3U, t ? 3U : 2U, t ? 4000U : 1200U, 64, {u(-1), u(WCHAR_MIN), u(WCHAR_MAX), 0x100, 0xFF}, {L'a', L'x', u(-1), L'z', u(WCHAR_MAX)}, t ? 257U : 129U};
+    run_type<wchar_t>(c, sw, work);
+    Scope<char16_t> s16{CK_CHAR16, {u'a', u'b', 0, 0xD83D}, t ? 4U : 3U, t ? 3U : 2U, t ? 4000U : 1200U, 64, {0xD800, 0xDFFF, 0xFFFF, 0x0100, 0x00FF}, {u'a', u'x', 0xFFFF, u'z', 0xD800}, t ? 257U : 129U};
+    run_type<char16_t>(c, s16, work);
 #else
-    Scope<char8_t> s8{CK_CHAR8, {u8'a', u8'b', 0, 0xC3}, t ? 4U : 3U, t ? 3U : 2U, t ? 4000U : 1200U, 64};
-    enumerate<char8_t>(c, s8, work);
-    random_pairs<char8_t>(c, s8);
-    Scope<char32_t> s32{CK_CHAR32, {U'a', U'b', 0, 0x1F600}, t ? 4U : 3U, t ? 3U : 2U, t ? 4000U : 1200U, 64};
-    enumerate<char32_t>(c, s32, work);
-    random_pairs<char32_t>(c, s32);
+    Scope<char8_t> s8{CK_CHAR8, {u8'a', u8'b', 0, 0xC3}, t ? 4U : 3U, t ? 3U : 2U, t ? 4000U : 1200U, 64, {0x80, 0xFF, 0x7F}, {u8'a', u8'x', 0xFF, u8'z', 0x80}, t ? 257U : 129U};
+    run_type<char8_t>(c, s8, work);
+    Scope<char32_t> s32{CK_CHAR32, {U'a', U'b', 0, 0x1F600}, t ? 4U : 3U, t ? 3U : 2U, t ? 4000U : 1200U, 64, {0x10FFFF, 0x80000000U, 0xFFFFFFFFU, 0x0100}, {U'a', U'x', 0xFFFFFFFFU, U'z', 0x80000000U}, t ? 257U : 129U};
+    run_type<char32_t>(c, s32, work);
 #endif
 }
 
